@@ -57,9 +57,45 @@ pub fn run_children(args: &Args, rep: &mut Report) -> bool {
         cmd.stderr(Stdio::null());
         children.push((cmd.spawn().expect("spawn shard"), out));
     }
-    for (mut c, out) in children {
+    for (i, (mut c, out)) in children.into_iter().enumerate() {
         let st = c.wait().expect("wait shard");
         let code = st.code().unwrap_or(-1);
+        if !(code == 0 || code == 1 || code == 2) {
+            // The shard died (abort, signal): run it again one case at a time, each case named in
+            // a file before it starts, to find the case that kills the process.
+            use std::os::unix::process::ExitStatusExt;
+            let sig = st.signal();
+            let trace = format!("{}/jbkmc-shard-{}-{}.current", crate::scratch_base(), std::process::id(), i);
+            let mut cmd = Command::new(&exe);
+            cmd.arg(&args.sub).arg("--tier").arg(&args.tier).arg("--out").arg(&out).arg("--shard").arg(format!("{i}/{n}"));
+            for r in &args.rest {
+                cmd.arg(r);
+            }
+            cmd.env("JBKMC_EMIT_SETS", "1").env("RAYON_NUM_THREADS", "1").env("JBKMC_TRACE_CURRENT", &trace).stderr(Stdio::null());
+            let st2 = cmd.status().expect("re-run shard");
+            let code2 = st2.code().unwrap_or(-1);
+            if !(code2 == 0 || code2 == 1 || code2 == 2) {
+                let case_text = std::fs::read_to_string(&trace).unwrap_or_default();
+                let case: Value = serde_json::from_str(&case_text).unwrap_or(serde_json::json!(case_text));
+                let how = match (sig, st2.signal()) {
+                    (_, Some(s)) => format!("signal {s}"),
+                    (Some(s), None) => format!("signal {s}"),
+                    _ => format!("exit {code2}"),
+                };
+                rep.violation(
+                    &format!("{} the process dies ({how}) while creating or reading a container", rep.property.clone()),
+                    &format!("shard {i}/{n} died twice; case running when it died the second time (one case at a time): {}", case_text.chars().take(400).collect::<String>()),
+                    serde_json::json!({"engine": rep.engine.clone(), "sub": args.sub, "scenario": case}),
+                );
+                let _ = std::fs::remove_file(&trace);
+                let _ = std::fs::remove_file(&out);
+                continue;
+            }
+            let _ = std::fs::remove_file(&trace);
+            // the second run went through: use its report, and say that the first one died
+            rep.machinery_errors.push(format!("shard {i}/{n} died ({sig:?}) and went through when run again one case at a time: not reproducible"));
+        }
+        let code = if code == 0 || code == 1 || code == 2 { code } else { 0 };
         match std::fs::read_to_string(&out).ok().and_then(|t| serde_json::from_str::<Value>(&t).ok()) {
             Some(j) if code == 0 || code == 1 || code == 2 => {
                 rep.merge_child(&j);
